@@ -2,7 +2,9 @@ package main
 
 import (
 	"fmt"
+	"go/token"
 	"go/types"
+	"sort"
 	"strings"
 
 	"golang.org/x/tools/go/ssa"
@@ -316,6 +318,253 @@ func (p *Program) c17Expand(v ssa.Value, facts []Fact, depth int) []c17Leaf {
 	return []c17Leaf{{V: v, Facts: facts}}
 }
 
+// ---------------------------------------------------------------------------------------------
+// values that merge at a join (results of a multi-return helper once its body stands at the call
+// site: one phi per result, all in the block after the helper's body)
+
+// c17NilnessOf: is the value itself nil (yes) / certainly non-nil (no)?
+func c17NilnessOf(v ssa.Value) tri {
+	for i := 0; i < 6; i++ {
+		switch x := v.(type) {
+		case *ssa.ChangeInterface:
+			v = x.X
+			continue
+		case *ssa.ChangeType:
+			v = x.X
+			continue
+		case *ssa.MakeInterface, *ssa.Alloc, *ssa.MakeSlice, *ssa.MakeMap, *ssa.MakeClosure, *ssa.Function:
+			return noTri
+		case *ssa.Const:
+			if x.Value == nil {
+				return yesTri
+			}
+			return unknownTri
+		}
+		break
+	}
+	if definitelyNonNil(v) {
+		return noTri
+	}
+	return unknownTri
+}
+
+// c17PhiUnderFacts: the values v can carry at a point where `facts` hold. An incoming edge of a phi
+// is dropped when it contradicts what the facts say about that phi or about another phi of the same
+// block (the sibling results of one helper return: `return nil, false, nil` cannot be the return
+// taken when the flag was tested true). Facts about a phi are established after the phi's block ran,
+// so they speak about the same execution of the join as the value read here.
+func (p *Program) c17PhiUnderFacts(v ssa.Value, facts []Fact, depth int) []ssa.Value {
+	ph, ok := v.(*ssa.Phi)
+	if !ok || depth > 6 {
+		return []ssa.Value{v}
+	}
+	blk := ph.Block()
+	siblingEdge := func(x ssa.Value, i int) (ssa.Value, bool) {
+		s, ok := x.(*ssa.Phi)
+		if !ok || s.Block() != blk || i >= len(s.Edges) {
+			return nil, false
+		}
+		return s.Edges[i], true
+	}
+	var out []ssa.Value
+	seen := map[ssa.Value]bool{}
+	for i, e := range ph.Edges {
+		if i >= len(blk.Preds) {
+			return []ssa.Value{v}
+		}
+		edgeFs := p.FactsOnEdge(blk.Preds[i], blk)
+		feasible := true
+		for _, f := range facts {
+			if sv, ok := siblingEdge(f.Cond, i); ok {
+				if cb, isConst := constBool(sv); isConst {
+					if cb != f.Pol {
+						feasible = false
+					}
+				} else if t := p.boolFromFacts(edgeFs, sv); (t == yesTri && !f.Pol) || (t == noTri && f.Pol) {
+					feasible = false
+				}
+				continue
+			}
+			x, trueMeansNonNil, isNilTest := errNilTest(f.Cond)
+			if !isNilTest {
+				continue
+			}
+			sv, ok := siblingEdge(x, i)
+			if !ok {
+				continue
+			}
+			wantNil := f.Pol != trueMeansNonNil
+			n := c17NilnessOf(sv)
+			if n == unknownTri {
+				n = p.nilnessFromFacts(edgeFs, sv)
+			}
+			if (wantNil && n == noTri) || (!wantNil && n == yesTri) {
+				feasible = false
+			}
+		}
+		if !feasible {
+			continue
+		}
+		for _, x := range p.c17PhiUnderFacts(e, facts, depth+1) {
+			if !seen[x] {
+				seen[x] = true
+				out = append(out, x)
+			}
+		}
+	}
+	return out
+}
+
+// c17BoundValue: the value a phi has on a path (bindings are resolved when they are recorded, so one
+// lookup suffices; a phi the path did not pass stays as it is).
+func c17BoundValue(v ssa.Value, bind map[*ssa.Phi]ssa.Value) ssa.Value {
+	if ph, ok := v.(*ssa.Phi); ok {
+		if b, ok := bind[ph]; ok {
+			return b
+		}
+	}
+	return v
+}
+
+// c17CondOnPath: the truth value of a branch condition on a path that entered its joins through the
+// edges recorded in bind; unknownTri when the path does not decide it.
+func c17CondOnPath(cond ssa.Value, bind map[*ssa.Phi]ssa.Value, depth int) tri {
+	neg := func(t tri) tri {
+		switch t {
+		case yesTri:
+			return noTri
+		case noTri:
+			return yesTri
+		}
+		return unknownTri
+	}
+	if depth > 6 {
+		return unknownTri
+	}
+	if b := c17BoundValue(cond, bind); b != cond {
+		// a value taken from a binding is final: its operands are not looked up again (they were
+		// resolved when the binding was recorded)
+		cond, bind = b, nil
+	}
+	if cb, ok := constBool(cond); ok {
+		if cb {
+			return yesTri
+		}
+		return noTri
+	}
+	switch x := cond.(type) {
+	case *ssa.UnOp:
+		if x.Op == token.NOT {
+			return neg(c17CondOnPath(x.X, bind, depth+1))
+		}
+	case *ssa.BinOp:
+		if x.Op != token.EQL && x.Op != token.NEQ {
+			return unknownTri
+		}
+		l, r := c17BoundValue(x.X, bind), c17BoundValue(x.Y, bind)
+		res := unknownTri // truth of l == r
+		switch {
+		case isNilConst(r):
+			res = c17NilnessOf(l)
+		case isNilConst(l):
+			res = c17NilnessOf(r)
+		default:
+			if cb, ok := constBool(r); ok {
+				res = c17CondOnPath(x.X, bind, depth+1)
+				if !cb {
+					res = neg(res)
+				}
+			} else if cb, ok := constBool(l); ok {
+				res = c17CondOnPath(x.Y, bind, depth+1)
+				if !cb {
+					res = neg(res)
+				}
+			}
+		}
+		if x.Op == token.NEQ {
+			res = neg(res)
+		}
+		return res
+	}
+	return unknownTri
+}
+
+// c17FeasibleReach: is there a path from block `from` to block `to` that does not enter `avoid` and is
+// consistent with itself? The walk records, for every join it enters, which incoming edge it used
+// (the value each phi of the join has on this path) and does not follow the branch of an `if` whose
+// condition those choices decide the other way. `infeasible` may veto further edges. An exhausted
+// search budget counts as reachable.
+func c17FeasibleReach(from, to, avoid *ssa.BasicBlock, infeasible func(from, to *ssa.BasicBlock) bool) bool {
+	type state struct {
+		b    *ssa.BasicBlock
+		bind map[*ssa.Phi]ssa.Value
+	}
+	sig := func(s state) string {
+		var parts []string
+		for ph, v := range s.bind {
+			parts = append(parts, fmt.Sprintf("%s=%p", ph.Name(), v))
+		}
+		sort.Strings(parts)
+		return fmt.Sprintf("%d|%s", s.b.Index, strings.Join(parts, ","))
+	}
+	seen := map[string]bool{}
+	work := []state{{b: from, bind: map[*ssa.Phi]ssa.Value{}}}
+	for budget := 20000; len(work) > 0; budget-- {
+		if budget == 0 {
+			return true
+		}
+		s := work[len(work)-1]
+		work = work[:len(work)-1]
+		if s.b == avoid {
+			continue
+		}
+		if s.b == to {
+			return true
+		}
+		k := sig(s)
+		if seen[k] {
+			continue
+		}
+		seen[k] = true
+		decided := unknownTri
+		if iff, ok := s.b.Instrs[len(s.b.Instrs)-1].(*ssa.If); ok && len(s.b.Succs) == 2 && s.b.Succs[0] != s.b.Succs[1] {
+			decided = c17CondOnPath(iff.Cond, s.bind, 0)
+		}
+		for si, nx := range s.b.Succs {
+			if (decided == yesTri && si == 1) || (decided == noTri && si == 0) {
+				continue
+			}
+			if infeasible != nil && infeasible(s.b, nx) {
+				continue
+			}
+			pi := -1
+			for i, pr := range nx.Preds {
+				if pr == s.b {
+					pi = i
+					break
+				}
+			}
+			nb := make(map[*ssa.Phi]ssa.Value, len(s.bind)+2)
+			for ph, v := range s.bind {
+				nb[ph] = v
+			}
+			for _, in := range nx.Instrs {
+				ph, ok := in.(*ssa.Phi)
+				if !ok {
+					break
+				}
+				if pi >= 0 && pi < len(ph.Edges) {
+					nb[ph] = c17BoundValue(ph.Edges[pi], s.bind)
+				} else {
+					delete(nb, ph)
+				}
+			}
+			work = append(work, state{b: nx, bind: nb})
+		}
+	}
+	return false
+}
+
 // c17FieldNil: do the facts say <prm>.<field> is nil (yes) / non-nil (no)?
 func c17FieldNil(fs []Fact, prm *ssa.Parameter, field string) tri {
 	for _, f := range fs {
@@ -589,7 +838,7 @@ func c17r3(c *Ctx) {
 				if l == nil {
 					continue
 				}
-				if k.site.Block() == ap.Block() || !c17ReachAvoidingGiven(k.site.Block(), l.Head, ap.Block(), infeasible) {
+				if k.site.Block() == ap.Block() || !c17FeasibleReach(k.site.Block(), l.Head, ap.Block(), infeasible) {
 					reaches = true
 				}
 			}
@@ -640,15 +889,37 @@ func c17r3(c *Ctx) {
 		var list *ssa.MakeSlice
 		var sidx ssa.Value
 		ps0 := c16Extract(psCall, 0)
+		// the stored value is judged by what it can be where it is stored: a value that merged with
+		// the results of the failing returns (parsers called in an extracted helper) is narrowed by
+		// the error tests that guard the store
 		for _, b := range f.Blocks {
 			for _, in := range b.Instrs {
 				st, ok := in.(*ssa.Store)
-				if !ok || ps0 == nil || !p.sameValue(st.Val, ps0) {
+				if !ok || ps0 == nil {
 					continue
 				}
-				if ia, ok := st.Addr.(*ssa.IndexAddr); ok {
-					if ms, ok := ia.X.(*ssa.MakeSlice); ok {
-						store, list, sidx = st, ms, ia.Index
+				ia, ok := st.Addr.(*ssa.IndexAddr)
+				if !ok {
+					continue
+				}
+				ms, ok := ia.X.(*ssa.MakeSlice)
+				if !ok {
+					continue
+				}
+				vals := p.c17PhiUnderFacts(st.Val, p.FactsAt(b), 0)
+				hit := false
+				for _, v := range vals {
+					if p.sameValue(v, ps0) {
+						hit = true
+					}
+				}
+				if !hit {
+					continue
+				}
+				store, list, sidx = st, ms, ia.Index
+				for _, v := range vals {
+					if !p.sameValue(v, ps0) {
+						pr = append(pr, fmt.Sprintf("the value stored at %s may also be %s, not the result of the selector parser", p.IPos(st), p.describe(v)))
 					}
 				}
 			}
